@@ -728,6 +728,15 @@ CORPUS = [
     # C17-fix3-4: a field appended to a domain-only dataset whose auxiliary coordinate has bounds (the dry run
     # renamed the bounds dimension 'bounds2_1')
     {"id": "corpus-domain-file-field-appended", "fam": "corpus", "s0": [{"syn": {"ncvar": "q", "props": {"units": "1"}, "v": 20, "axes": [{"size": 3, "ncdim": "d_lon", "data": True, "unlim": False}, {"size": 3, "ncdim": None, "data": True, "unlim": False}, {"size": 2, "ncdim": "lat", "data": True, "unlim": False}, {"size": 1, "ncdim": None, "data": False}], "dim": [{"axis": 0, "ncvar": "lon", "props": {"standard_name": "longitude", "units": "degrees_east"}, "v": 1}, {"axis": 1, "ncvar": "plainv", "props": {"long_name": "an axis"}, "v": 2, "bnd": {"v": 0, "ncvar": None, "ncdim": None}}, {"axis": 2, "ncvar": None, "props": {"standard_name": "latitude", "units": "degrees_north"}, "v": 1}, {"axis": 3, "ncvar": None, "props": {"standard_name": "time", "units": "days since 2000-01-01"}, "v": 0}], "aux": [{"axes": [0], "ncvar": None, "props": {"long_name": "other aux", "units": "1"}, "v": 3, "bnd": {"v": 0}}, {"axes": [0], "ncvar": None, "props": {"standard_name": "altitude", "units": "m"}, "v": 4}], "msr": [], "vert": None}, "domain": "default"}], "appends": [[{"syn": {"ncvar": "new", "props": {"units": "K", "standard_name": "air_temperature", "project": "research", "long_name": "a field"}, "v": 30, "axes": [{"size": 3, "ncdim": "d_lon", "data": True, "unlim": False}, {"size": 3, "ncdim": "d_plain", "data": True, "unlim": False}, {"size": 2, "ncdim": "lat", "data": True, "unlim": False}, {"size": 1, "ncdim": None, "data": False}], "dim": [{"axis": 0, "ncvar": "lonw", "props": {"standard_name": "longitude", "units": "degrees_east"}, "v": 1, "bnd": {"v": 1, "ncvar": "lon_bnds", "ncdim": None}}, {"axis": 1, "ncvar": "plainv", "props": {"long_name": "an axis"}, "v": 2, "bnd": {"v": 1, "ncvar": None, "ncdim": None}}, {"axis": 2, "ncvar": "latw", "props": {"standard_name": "latitude", "units": "degrees_north"}, "v": 1}, {"axis": 3, "ncvar": None, "props": {"standard_name": "time", "units": "days since 2000-01-01"}, "v": 1}], "aux": [{"axes": [0], "ncvar": None, "props": {"long_name": "other aux", "units": "1"}, "v": 4, "bnd": {"v": 0}}, {"axes": [0], "ncvar": None, "props": {"standard_name": "altitude", "units": "m"}, "v": 4}], "msr": [], "vert": None}}], [{"syn": {"ncvar": "q", "props": {"units": "m s-1", "standard_name": "eastward_wind", "long_name": "another field", "comment": "c1"}, "v": 31, "axes": [{"size": 3, "ncdim": None, "data": True, "unlim": False}, {"size": 3, "ncdim": None, "data": True, "unlim": False}, {"size": 2, "ncdim": "lat", "data": True, "unlim": False}, {"size": 1, "ncdim": None, "data": False}], "dim": [{"axis": 0, "ncvar": "lon", "props": {"standard_name": "longitude", "units": "degrees_east"}, "v": 1}, {"axis": 1, "ncvar": "plainv", "props": {"long_name": "an axis"}, "v": 2, "bnd": {"v": 0, "ncvar": None, "ncdim": None}}, {"axis": 2, "ncvar": "lat", "props": {"standard_name": "latitude", "units": "degrees_north"}, "v": 1, "bnd": {"v": 1, "ncvar": None, "ncdim": "nv"}}, {"axis": 3, "ncvar": None, "props": {"standard_name": "time", "units": "days since 2000-01-01"}, "v": 0}], "aux": [{"axes": [0], "ncvar": None, "props": {"long_name": "other aux", "units": "1"}, "v": 3, "bnd": {"v": 0}}, {"axes": [0], "ncvar": None, "props": {"standard_name": "altitude", "units": "m"}, "v": 4}], "msr": [], "vert": None}, "domain": "dom0"}]], "a_mode": ["r+", "r+"]},
+    # seed robustness (VERIF_SEED=2): an appended domain whose coordinate bounds variable gets the default name
+    # 'bounds' - alphabetically before its coordinate variable, so that cfdm.read (field mode) returns the bounds
+    # variable, not the coordinate variable, as the field; not an extra field of the append
+    {"id": "corpus-domain-bounds-named-bounds", "fam": "corpus", "s0": [{"syn": {"ncvar": "q", "props": {"units": "1", "long_name": "another field", "references": "r1"}, "v": 20, "axes": [{"size": 3, "ncdim": "d_height", "data": True, "unlim": False}, {"size": 4, "ncdim": None, "data": True, "unlim": False}, {"size": 1, "ncdim": None, "data": False}], "dim": [{"axis": 0, "ncvar": "heightv", "props": {"standard_name": "height", "units": "m"}, "v": 0}, {"axis": 1, "ncvar": None, "props": {"long_name": "an axis"}, "v": 0}, {"axis": 2, "ncvar": None, "props": {"standard_name": "time", "units": "days since 2000-01-01"}, "v": 0, "bnd": {"v": 0}}], "aux": [{"axes": [1], "ncvar": None, "props": {"standard_name": "altitude", "units": "m"}, "v": 3}, {"axes": [0], "ncvar": None, "props": {"long_name": "aux"}, "v": 3}], "msr": [{"axes": [0, 1], "ncvar": "areacell", "props": {"units": "m2"}, "v": 7, "measure": "area"}], "vert": None}, "domain": "default"}], "appends": [[{"syn": {"ncvar": "q", "props": {"units": "m s-1", "standard_name": "eastward_wind"}, "v": 30, "axes": [{"size": 3, "ncdim": None, "data": True, "unlim": False}, {"size": 4, "ncdim": None, "data": True, "unlim": False}, {"size": 1, "ncdim": None, "data": False}], "dim": [{"axis": 0, "ncvar": "heightv", "props": {"standard_name": "height", "units": "m"}, "v": 0}, {"axis": 1, "ncvar": "plainv", "props": {"long_name": "an axis"}, "v": 0}, {"axis": 2, "ncvar": None, "props": {"standard_name": "time", "units": "days since 2000-01-01"}, "v": 0, "bnd": {"v": 0}}], "aux": [{"axes": [1], "ncvar": None, "props": {"standard_name": "altitude", "units": "m"}, "v": 3}, {"axes": [0], "ncvar": None, "props": {"long_name": "aux"}, "v": 3}], "msr": [{"axes": [0, 1], "ncvar": "areacell", "props": {"units": "m2"}, "v": 7, "measure": "area"}], "vert": None}, "domain": "default"}], [{"syn": {"ncvar": "new", "props": {"units": "K", "standard_name": "air_temperature", "project": "research"}, "v": 31, "axes": [{"size": 3, "ncdim": "d_height", "data": True, "unlim": False}, {"size": 4, "ncdim": None, "data": True, "unlim": False}, {"size": 1, "ncdim": None, "data": False}], "dim": [{"axis": 1, "ncvar": None, "props": {"long_name": "an axis"}, "v": 1}, {"axis": 2, "ncvar": None, "props": {"standard_name": "time", "units": "days since 2000-01-01"}, "v": 1, "bnd": {"v": 0}}], "aux": [{"axes": [1], "ncvar": None, "props": {"standard_name": "altitude", "units": "m"}, "v": 4}, {"axes": [0], "ncvar": None, "props": {"long_name": "aux"}, "v": 4}], "msr": [{"axes": [0, 1], "ncvar": "areacell", "props": {"units": "m2"}, "v": 7, "measure": "area"}], "vert": None}, "domain": "dom2"}]], "a_mode": ["r+", "a"]},
+    # seed robustness (VERIF_SEED=2, 3): an appended domain whose auxiliary coordinate equals one of the domain-only
+    # dataset but is not shared (there it is only known as a field): the greedy matching of old fields took the new
+    # variable and reported the old one as extra
+    {"id": "corpus-domain-equal-unshared-metadata-0", "fam": "corpus", "s0": [{"syn": {"ncvar": "q", "props": {"units": "1", "standard_name": "specific_humidity", "references": "r1"}, "v": 20, "axes": [{"size": 1, "ncdim": "time", "data": True, "unlim": False}], "dim": [{"axis": 0, "ncvar": "time", "props": {"standard_name": "time", "units": "days since 2000-01-01"}, "v": 0, "bnd": {"v": 0, "ncvar": "time_bnds", "ncdim": None}}], "aux": [{"axes": [0], "ncvar": "auxv", "props": {"long_name": "aux"}, "v": 3}, {"axes": [0], "ncvar": None, "props": {"standard_name": "altitude", "units": "m"}, "v": 3}], "msr": [], "vert": None}, "domain": "default"}], "appends": [[{"syn": {"ncvar": "q", "props": {"units": "1", "project": "research", "long_name": "another field"}, "v": 30, "axes": [{"size": 1, "ncdim": "time", "data": True, "unlim": False}], "dim": [{"axis": 0, "ncvar": "time", "props": {"standard_name": "time", "units": "days since 2000-01-01"}, "v": 0, "bnd": {"v": 0, "ncvar": "time_bnds", "ncdim": None}}], "aux": [{"axes": [0], "ncvar": None, "props": {"long_name": "aux"}, "v": 3}, {"axes": [0], "ncvar": "auxw", "props": {"standard_name": "altitude", "units": "m"}, "v": 3}], "msr": [], "vert": None}, "domain": "dom2"}]], "a_mode": ["r+"]},
+    {"id": "corpus-domain-equal-unshared-metadata-1", "fam": "corpus", "s0": [{"syn": {"ncvar": "q", "props": {"units": "1", "standard_name": "specific_humidity", "long_name": "another field", "comment": "c1", "references": "r1"}, "v": 20, "axes": [{"size": 3, "ncdim": None, "data": True, "unlim": False}, {"size": 3, "ncdim": None, "data": True, "unlim": False}], "dim": [{"axis": 0, "ncvar": "time", "props": {"standard_name": "time", "units": "days since 2000-01-01"}, "v": 1}], "aux": [{"axes": [0], "ncvar": None, "props": {"long_name": "other aux", "units": "1"}, "v": 3, "bnd": {"v": 0}}], "msr": [], "vert": None}, "domain": "default"}], "appends": [[{"syn": {"ncvar": "q", "props": {"units": "1"}, "v": 30, "axes": [{"size": 3, "ncdim": None, "data": True, "unlim": False}, {"size": 3, "ncdim": None, "data": True, "unlim": False}], "dim": [{"axis": 0, "ncvar": None, "props": {"standard_name": "time", "units": "days since 2000-01-01"}, "v": 1}], "aux": [{"axes": [0], "ncvar": "auxw", "props": {"long_name": "other aux", "units": "1"}, "v": 3, "bnd": {"v": 0}}, {"axes": [1], "ncvar": "twin", "props": {"long_name": "twin aux", "units": "1"}, "v": 3, "bnd": {"v": 0}}], "msr": [], "vert": None}, "domain": "dom0"}], [{"syn": {"ncvar": "q", "props": {"units": "1", "project": "research"}, "v": 31, "axes": [{"size": 3, "ncdim": None, "data": True, "unlim": False}, {"size": 3, "ncdim": None, "data": True, "unlim": False}], "dim": [{"axis": 0, "ncvar": "timew", "props": {"standard_name": "time", "units": "days since 2000-01-01"}, "v": 1}], "aux": [{"axes": [0], "ncvar": None, "props": {"long_name": "other aux", "units": "1"}, "v": 3, "bnd": {"v": 0}}, {"axes": [1], "ncvar": None, "props": {"long_name": "twin aux", "units": "1"}, "v": 3, "bnd": {"v": 0}}], "msr": [], "vert": None}, "domain": "dom0"}]], "a_mode": ["a", "r+"]},
     # seeded C17-s1: one request holding the file's featureType and another one
     {"id": "corpus-mixed-featureType", "fam": "corpus", "s0": [{"ex": 3}],
      "appends": [[{"ex": 3, "mods": [["ncvar", "rf"]]}, {"ex": 4}], [{"ex": 4}, {"ex": 3, "mods": [["ncvar", "rf"]]}]]},
